@@ -1,0 +1,100 @@
+//go:build verif
+
+// Contracts for govc (/verif): C25 "Mint schedule and distribution are bounded, exact and work-monotone". Comment-only file.
+
+package kernel
+
+// ───────────── the schedule as mathematics ─────────────
+
+//@ -- MintPool / MintYearPercent are assigned once (package initialisation: NewInteger(500000), NewInteger(10).Ration(NewInteger(100)))
+//@ -- and never written afterwards (grep: only read, in kernel/mint.go).
+//@ axiom val(MintPool) == 50000000000000 && MintYearPercent.x == 1000000000 && MintYearPercent.y == 10000000000
+
+//@ -- Pool(y): what is left of the pool after y whole years;  Size(b): the amount of batch (day) b;  Cum(n): Size(1) + … + Size(n)
+//@ rec Pool(y int) mathint = y <= 0 ? 50000000000000 : Pool(y - 1) - Pool(y - 1) / 10
+//@ spec Size(b int) mathint = Pool(b / 365) / 10 / 365
+//@ rec Cum(n int) mathint = n <= 0 ? 0 : Cum(n - 1) + Size(n)
+
+//@ func mintBatchSize
+//@   property C25
+//@   -- [live]: the schedule horizon of this function: pool.Sub(year) rejects a zero year, i.e. Pool(j) < 10
+//@   requires [live] forall j int :: 0 <= j && j < batch / 365 ==> Pool(j) >= 10
+//@   panics when batch / 365 > 10000
+//@   modifies nothing
+//@   ensures [size] val(result) == Size(batch)
+//@   loop 0 invariant 0 <= i && i <= batch / 365 && val(pool) == Pool(i) && Pool(i + 1) == Pool(i) - Pool(i) / 10
+
+//@ func mintMultiBatchesSize(from, batch)
+//@   property C25
+//@   -- [horizon]: amount.Add(size) rejects a zero size, i.e. Pool(year) < 3650 (see lemma Horizon for the concrete number)
+//@   requires [horizon] batch / 365 <= 10000 && forall j int :: 0 <= j && j <= batch / 365 ==> Pool(j) >= 3650
+//@   panics when from >= batch
+//@   modifies nothing
+//@   ensures [sum] val(result) == Cum(batch) - Cum(from)
+//@   loop 0 invariant from < i && i <= batch + 1 && val(amount) >= 0 && val(amount) == Cum(i - 1) - Cum(from) && Cum(i) == Cum(i - 1) + Size(i)
+
+// ───────────── lemmas about the schedule (induction: see `induct` in govc/ext_induct.go) ─────────────
+
+//@ lemma PoolNonNeg(y int)
+//@   property C25
+//@   induct y
+//@   requires y >= 0
+//@   ensures [nonneg] Pool(y) >= 0
+//@   pattern Pool(y)
+
+//@ -- the pool never grows
+//@ lemma PoolMono(a int, b int)
+//@   property C25
+//@   induct b
+//@   uses PoolNonNeg
+//@   requires 0 <= a && a <= b
+//@   ensures [mono] Pool(a) >= Pool(b)
+//@   pattern Pool(a), Pool(b)
+
+//@ -- "Per-batch mint amounts never increase"
+//@ lemma SizeMono(b1 int, b2 int)
+//@   property C25
+//@   uses PoolMono
+//@   requires 0 <= b1 && b1 <= b2
+//@   ensures [never-increase] Size(b1) >= Size(b2)
+
+//@ -- "their cumulative total never exceeds the mint pool": Cum(n) = Size(1) + … + Size(n). The induction carries the stronger
+//@ -- statement that what has been minted in the years before plus the current year's batches so far fits into what left the pool.
+//@ lemma CumBound(n int)
+//@   property C25
+//@   induct n
+//@   uses PoolNonNeg
+//@   requires n >= 0
+//@   ensures [step] Cum(n) + Pool(n / 365) <= 50000000000000 + (n % 365 + 1) * Size(n)
+//@   ensures [total] Cum(n) <= 50000000000000 - Pool(n / 365 + 1)
+//@   ensures [within-pool] Cum(n) <= 50000000000000
+
+//@ -- Ground evaluation of the schedule: the table of Pool(0..284) (computed outside, CHECKED here entry by entry by the induction step).
+//@ spec PoolTabA(y int) mathint = y == 0 ? 50000000000000 : (y == 1 ? 45000000000000 : (y == 2 ? 40500000000000 : (y == 3 ? 36450000000000 : (y == 4 ? 32805000000000 : (y == 5 ? 29524500000000 : (y == 6 ? 26572050000000 : (y == 7 ? 23914845000000 : (y == 8 ? 21523360500000 : (y == 9 ? 19371024450000 : (y == 10 ? 17433922005000 : (y == 11 ? 15690529804500 : (y == 12 ? 14121476824050 : (y == 13 ? 12709329141645 : (y == 14 ? 11438396227481 : (y == 15 ? 10294556604733 : (y == 16 ? 9265100944260 : (y == 17 ? 8338590849834 : (y == 18 ? 7504731764851 : (y == 19 ? 6754258588366 : (y == 20 ? 6078832729530 : (y == 21 ? 5470949456577 : (y == 22 ? 4923854510920 : (y == 23 ? 4431469059828 : (y == 24 ? 3988322153846 : (y == 25 ? 3589489938462 : (y == 26 ? 3230540944616 : (y == 27 ? 2907486850155 : (y == 28 ? 2616738165140 : (y == 29 ? 2355064348626 : (y == 30 ? 2119557913764 : (y == 31 ? 1907602122388 : (y == 32 ? 1716841910150 : (y == 33 ? 1545157719135 : (y == 34 ? 1390641947222 : (y == 35 ? 1251577752500 : (y == 36 ? 1126419977250 : (y == 37 ? 1013777979525 : (y == 38 ? 912400181573 : (y == 39 ? 821160163416 : (y == 40 ? 739044147075 : (y == 41 ? 665139732368 : (y == 42 ? 598625759132 : (y == 43 ? 538763183219 : (y == 44 ? 484886864898 : (y == 45 ? 436398178409 : (y == 46 ? 392758360569 : (y == 47 ? 353482524513 : (y == 48 ? 318134272062 : (y == 49 ? 286320844856 : (y == 50 ? 257688760371 : (y == 51 ? 231919884334 : (y == 52 ? 208727895901 : (y == 53 ? 187855106311 : (y == 54 ? 169069595680 : (y == 55 ? 152162636112 : (y == 56 ? 136946372501 : (y == 57 ? 123251735251 : (y == 58 ? 110926561726 : (y == 59 ? 99833905554 : (y == 60 ? 89850514999 : (y == 61 ? 80865463500 : (y == 62 ? 72778917150 : (y == 63 ? 65501025435 : (y == 64 ? 58950922892 : (y == 65 ? 53055830603 : (y == 66 ? 47750247543 : (y == 67 ? 42975222789 : (y == 68 ? 38677700511 : (y == 69 ? 34809930460 : (y == 70 ? 31328937414 : (y == 71 ? 28196043673 : (y == 72 ? 25376439306 : (y == 73 ? 22838795376 : (y == 74 ? 20554915839 : (y == 75 ? 18499424256 : (y == 76 ? 16649481831 : (y == 77 ? 14984533648 : (y == 78 ? 13486080284 : (y == 79 ? 12137472256 : (y == 80 ? 10923725031 : (y == 81 ? 9831352528 : (y == 82 ? 8848217276 : (y == 83 ? 7963395549 : (y == 84 ? 7167055995 : (y == 85 ? 6450350396 : (y == 86 ? 5805315357 : (y == 87 ? 5224783822 : (y == 88 ? 4702305440 : (y == 89 ? 4232074896 : (y == 90 ? 3808867407 : (y == 91 ? 3427980667 : (y == 92 ? 3085182601 : (y == 93 ? 2776664341 : (y == 94 ? 2498997907 : (y == 95 ? 2249098117 : (y == 96 ? 2024188306 : (y == 97 ? 1821769476 : (y == 98 ? 1639592529 : (y == 99 ? 1475633277 : (0))))))))))))))))))))))))))))))))))))))))))))))))))))))))))))))))))))))))))))))))))))))))))))))))))))
+//@ spec PoolTabB(y int) mathint = y == 100 ? 1328069950 : (y == 101 ? 1195262955 : (y == 102 ? 1075736660 : (y == 103 ? 968162994 : (y == 104 ? 871346695 : (y == 105 ? 784212026 : (y == 106 ? 705790824 : (y == 107 ? 635211742 : (y == 108 ? 571690568 : (y == 109 ? 514521512 : (y == 110 ? 463069361 : (y == 111 ? 416762425 : (y == 112 ? 375086183 : (y == 113 ? 337577565 : (y == 114 ? 303819809 : (y == 115 ? 273437829 : (y == 116 ? 246094047 : (y == 117 ? 221484643 : (y == 118 ? 199336179 : (y == 119 ? 179402562 : (y == 120 ? 161462306 : (y == 121 ? 145316076 : (y == 122 ? 130784469 : (y == 123 ? 117706023 : (y == 124 ? 105935421 : (y == 125 ? 95341879 : (y == 126 ? 85807692 : (y == 127 ? 77226923 : (y == 128 ? 69504231 : (y == 129 ? 62553808 : (y == 130 ? 56298428 : (y == 131 ? 50668586 : (y == 132 ? 45601728 : (y == 133 ? 41041556 : (y == 134 ? 36937401 : (y == 135 ? 33243661 : (y == 136 ? 29919295 : (y == 137 ? 26927366 : (y == 138 ? 24234630 : (y == 139 ? 21811167 : (y == 140 ? 19630051 : (y == 141 ? 17667046 : (y == 142 ? 15900342 : (y == 143 ? 14310308 : (y == 144 ? 12879278 : (y == 145 ? 11591351 : (y == 146 ? 10432216 : (y == 147 ? 9388995 : (y == 148 ? 8450096 : (y == 149 ? 7605087 : (y == 150 ? 6844579 : (y == 151 ? 6160122 : (y == 152 ? 5544110 : (y == 153 ? 4989699 : (y == 154 ? 4490730 : (y == 155 ? 4041657 : (y == 156 ? 3637492 : (y == 157 ? 3273743 : (y == 158 ? 2946369 : (y == 159 ? 2651733 : (y == 160 ? 2386560 : (y == 161 ? 2147904 : (y == 162 ? 1933114 : (y == 163 ? 1739803 : (y == 164 ? 1565823 : (y == 165 ? 1409241 : (y == 166 ? 1268317 : (y == 167 ? 1141486 : (y == 168 ? 1027338 : (y == 169 ? 924605 : (y == 170 ? 832145 : (y == 171 ? 748931 : (y == 172 ? 674038 : (y == 173 ? 606635 : (y == 174 ? 545972 : (y == 175 ? 491375 : (y == 176 ? 442238 : (y == 177 ? 398015 : (y == 178 ? 358214 : (y == 179 ? 322393 : (y == 180 ? 290154 : (y == 181 ? 261139 : (y == 182 ? 235026 : (y == 183 ? 211524 : (y == 184 ? 190372 : (y == 185 ? 171335 : (y == 186 ? 154202 : (y == 187 ? 138782 : (y == 188 ? 124904 : (y == 189 ? 112414 : (y == 190 ? 101173 : (y == 191 ? 91056 : (y == 192 ? 81951 : (y == 193 ? 73756 : (y == 194 ? 66381 : (y == 195 ? 59743 : (y == 196 ? 53769 : (y == 197 ? 48393 : (y == 198 ? 43554 : (y == 199 ? 39199 : (0))))))))))))))))))))))))))))))))))))))))))))))))))))))))))))))))))))))))))))))))))))))))))))))))))))
+//@ spec PoolTabC(y int) mathint = y == 200 ? 35280 : (y == 201 ? 31752 : (y == 202 ? 28577 : (y == 203 ? 25720 : (y == 204 ? 23148 : (y == 205 ? 20834 : (y == 206 ? 18751 : (y == 207 ? 16876 : (y == 208 ? 15189 : (y == 209 ? 13671 : (y == 210 ? 12304 : (y == 211 ? 11074 : (y == 212 ? 9967 : (y == 213 ? 8971 : (y == 214 ? 8074 : (y == 215 ? 7267 : (y == 216 ? 6541 : (y == 217 ? 5887 : (y == 218 ? 5299 : (y == 219 ? 4770 : (y == 220 ? 4293 : (y == 221 ? 3864 : (y == 222 ? 3478 : (y == 223 ? 3131 : (y == 224 ? 2818 : (y == 225 ? 2537 : (y == 226 ? 2284 : (y == 227 ? 2056 : (y == 228 ? 1851 : (y == 229 ? 1666 : (y == 230 ? 1500 : (y == 231 ? 1350 : (y == 232 ? 1215 : (y == 233 ? 1094 : (y == 234 ? 985 : (y == 235 ? 887 : (y == 236 ? 799 : (y == 237 ? 720 : (y == 238 ? 648 : (y == 239 ? 584 : (y == 240 ? 526 : (y == 241 ? 474 : (y == 242 ? 427 : (y == 243 ? 385 : (y == 244 ? 347 : (y == 245 ? 313 : (y == 246 ? 282 : (y == 247 ? 254 : (y == 248 ? 229 : (y == 249 ? 207 : (y == 250 ? 187 : (y == 251 ? 169 : (y == 252 ? 153 : (y == 253 ? 138 : (y == 254 ? 125 : (y == 255 ? 113 : (y == 256 ? 102 : (y == 257 ? 92 : (y == 258 ? 83 : (y == 259 ? 75 : (y == 260 ? 68 : (y == 261 ? 62 : (y == 262 ? 56 : (y == 263 ? 51 : (y == 264 ? 46 : (y == 265 ? 42 : (y == 266 ? 38 : (y == 267 ? 35 : (y == 268 ? 32 : (y == 269 ? 29 : (y == 270 ? 27 : (y == 271 ? 25 : (y == 272 ? 23 : (y == 273 ? 21 : (y == 274 ? 19 : (y == 275 ? 18 : (y == 276 ? 17 : (y == 277 ? 16 : (y == 278 ? 15 : (y == 279 ? 14 : (y == 280 ? 13 : (y == 281 ? 12 : (y == 282 ? 11 : (y == 283 ? 10 : (y == 284 ? 9 : (0)))))))))))))))))))))))))))))))))))))))))))))))))))))))))))))))))))))))))))))))))))))
+//@ spec PoolTab(y int) mathint = y < 100 ? PoolTabA(y) : y < 200 ? PoolTabB(y) : PoolTabC(y)
+//@ lemma PoolTable(y int)
+//@   property C25
+//@   induct y
+//@   requires 0 <= y && y <= 284
+//@   ensures [table] Pool(y) == PoolTab(y)
+//@   pattern Pool(y)
+
+//@ -- The horizons. Pool(221) = 3864 >= 3650 > 3478 = Pool(222): batch 222*365-1 = 81029 is the last one with a positive size;
+//@ -- Pool(283) = 10 > 9 = Pool(284): pool.Sub(year) in mintBatchSize is defined for batch/365 <= 284.
+//@ lemma HorizonValue()
+//@   property C25
+//@   uses PoolTable
+//@   ensures [y221] Pool(221) == 3864
+//@   ensures [y222] Pool(222) == 3478
+//@   ensures [y283] Pool(283) == 10
+//@   ensures [y284] Pool(284) == 9
+
+//@ lemma Horizon(j int)
+//@   property C25
+//@   uses PoolMono, HorizonValue
+//@   requires 0 <= j
+//@   ensures [positive-size] j <= 221 ==> Pool(j) >= 3650
+//@   ensures [live] j <= 283 ==> Pool(j) >= 10
+//@   pattern Pool(j)
